@@ -31,21 +31,32 @@ SOURCES = ["include/etl/_vector/static_vector.hpp", "include/etl/_inplace_vector
            "include/etl/_type_traits/smallest_size_t.hpp"]
 RULE = ("exhaustive one-step box: static_vector of capacity 0..3 (int, a non-trivial class, and a handle class whose move "
         "assignment empties its source and has no self test), every content state over "
-        "the values {0,1,2}, every member with every position / count / value / overload; every ordered pair of content "
-        "states for copy/move construction and assignment, swap (member, free, self) and the six relational operators, each "
-        "copy followed by two rounds of changes of the source and of the copy; inplace_vector (the members it has) and stack "
-        "likewise at capacity 0..3 (int and the non-trivial class); the member inventory (api_member) of all three types at "
+        "the values {0,1,2}, every member with every position / count / value / overload, and every member that takes its "
+        "argument by reference (push_back, emplace_back, insert(pos,x), emplace(pos,x), insert(pos,n,x), resize(n,x), "
+        "push_back(back())) called with every element i of the vector itself at every position / count (these also at capacity 4 "
+        "from every state of length 2); every ordered pair of "
+        "content states for copy/move construction and assignment, swap (member, free, self) and the six relational operators, each "
+        "copy followed by two rounds of changes of the source and of the copy; a key/payload element kind (kp: operator< on the "
+        "key only, operator== on key and payload; the values 0 and 1 are equivalent and not equal, 2 is greater) for "
+        "static_vector at capacity 0..3 and stack at capacity 1 and 3: every ordered pair of content states (and every state "
+        "with itself) for the six relational operators, erase(c, value), the aliasing members (quick: that subset of the "
+        "single-object members; thorough: all); inplace_vector (the members it has) and stack "
+        "(incl. push(top()) / emplace(top()); inplace_vector: try_/unchecked_ push and emplace with element i of the vector itself) likewise at capacity 0..3 (int and the non-trivial class); the member inventory (api_member) of all three types at "
         "capacity 0 and 4; the size type at both sides of every threshold of the smallest_size_t chain (api_width: 254/255/256, "
         "65534/65535/65536, 2^32-2/2^32-1/2^32, 2^63-1) and the widths of the types it names (api_abi); deterministic walks across "
         "the size-type boundary at capacities 254/255/256 (fill to capacity-1, to capacity, one more try, back, insert/erase at "
-        "both ends, copy, compare, swap); plus seeded random histories of up to 40 operations on four live objects at "
-        "capacities {0,1,2,3,4,7}, random interleaved histories (object 0 := copy of object 1, then 2..16 single-object "
+        "both ends, copy, compare, swap, then aliasing inserts / resize / push_back(back()) at capacity-1); plus seeded random histories of up to 40 operations on four live objects at "
+        "capacities {0,1,2,3,4,7} (the aliasing members among the candidates; element kind kp where the harness instantiates it: "
+        "static_vector at capacity <= 4, stack at 1 and 3), random interleaved histories (object 0 := copy of object 1, then 2..16 single-object "
         "operations addressed to the source or the copy at random: the hypothesis shape of copy_independent) at capacities "
         "1..7, and histories of up to 10 operations from a nearly full vector at {254,255,256}.  Beyond capacity 3 "
         "nothing is exhaustive.  A line is generated only if it is valid by Tetl.C01.Spec.valid (precondition in the spec "
         "state; moved-from objects only take operations without a precondition on their contents).  A history is "
         "non-trivial when some object is non-empty after some step; distinct = distinct case text.")
-ASSUMPTIONS = ["std::vector / std::stack of libstdc++ 12 are the reference for spec validation (R2); libstdc++ 12 has no "
+ASSUMPTIONS = ["assign(n, t) with t a reference into the vector, assign(i, j) / insert(p, i, j) with iterators into the vector and "
+               "rvalue arguments that alias an element (insert(p, std::move(v[i]))) are outside the property: [sequence.reqmts] "
+               "/ [res.on.arguments] exclude them; every other member that takes a reference is run with an aliasing argument",
+               "std::vector / std::stack of libstdc++ 12 are the reference for spec validation (R2); libstdc++ 12 has no "
                "std::inplace_vector, its reference is std::vector plus the capacity test",
                "element types are modelled at the value level (naturals); the two storage implementations are exercised "
                "by the harness with int and with a class that has user-provided special members",
@@ -91,6 +102,10 @@ THEOREMS = {
     "insert_fill_alias": _STEP + [_P + "insertFill_alias_eq", _P + "alias_spec", _P + "alias_members_generalise",
                                   _P + "rotate_eq"],
     "resize_val_alias": _STEP + [_P + "resize_alias_eq", _P + "alias_spec", _P + "alias_members_generalise"],
+    "try_push_alias": _STEP + [_P + "ipv_push_alias_eq", _P + "alias_spec", _P + "tryPush_full"],
+    "try_emplace_alias": _STEP + [_P + "ipv_push_alias_eq", _P + "alias_spec", _P + "tryPush_full"],
+    "unchecked_push_alias": _STEP + [_P + "ipv_push_alias_eq", _P + "alias_spec"],
+    "unchecked_emplace_alias": _STEP + [_P + "ipv_push_alias_eq", _P + "alias_spec"],
     "dump": [_P + "observers_refine", _P + "observers_refine_ipv_stk", _P + "observers_zero_capacity"],
     "try_push": _STEP + [_P + "tryPush_full"], "try_push_rv": _STEP + [_P + "tryPush_full"],
     "try_emplace": _STEP + [_P + "tryPush_full"], "unchecked_push": _STEP, "unchecked_push_rv": _STEP,
@@ -210,6 +225,10 @@ def unary_ops_exhaustive(ty, cap, d):
             ops += ["try_push x=%d" % x, "try_push_rv x=%d" % x, "try_emplace x=%d" % x]
             if room > 0:
                 ops += ["unchecked_push x=%d" % x, "unchecked_push_rv x=%d" % x, "unchecked_emplace x=%d" % x]
+        for i in range(n):
+            ops += ["try_push_alias i=%d" % i, "try_emplace_alias i=%d" % i]
+            if room > 0:
+                ops += ["unchecked_push_alias i=%d" % i, "unchecked_emplace_alias i=%d" % i]
         if n > 0:
             ops.append("pop")
         ops.append("clear")
@@ -317,7 +336,8 @@ def boundary_histories(add):
             add([new_line("ipv", cap, kind)] + ["unchecked_push x=%d" % (i % 7) for i in range(cap - 1)]
                 + ["try_push x=9", "try_push x=4", "try_emplace x=4", "try_push_rv x=4", "copy_ctor obj=1 other=0",
                    "pop obj=0", "try_push obj=1 x=2", "try_emplace obj=0 x=3", "move_ctor obj=2 other=0", "clear obj=0",
-                   "try_push obj=0 x=1", "try_push obj=2 x=1"], "ipv/boundary")
+                   "try_push obj=0 x=1", "try_push obj=2 x=1", "try_push_alias obj=1 i=3", "pop obj=1",
+                   "unchecked_push_alias obj=1 i=2", "try_emplace_alias obj=1 i=0"], "ipv/boundary")
 
 
 def new_line(ty, cap, kind, init=None):
@@ -371,6 +391,14 @@ def exhaustive(add, thorough):
                         if op == "move_assign":
                             lines += ["clear obj=0"] if ty == "sv" else ["copy_assign obj=0 other=2"]
                         add(lines, "%s/%s-self" % (ty, op))
+    # aliasing arguments need two distinct elements AND room for two copies to tell "read once" from "read per copy":
+    # capacity 4, every content state of length 2
+    for kind in ("int", "nt", "hd"):
+        head = new_line("sv", 4, kind)
+        for d in lists([0, 1, 2], 2):
+            if len(d) == 2:
+                for op in alias_ops_exhaustive(4, d):
+                    add([head] + build("sv", d, 0) + [op], "sv/%s" % op.split(" ")[0])
     # the other initialisation form of every type
     for kind in ("int", "nt"):
         for cap in (0, 1, 4, 255, 256):
@@ -423,7 +451,8 @@ UNARY_CANDS = {
            "erase_if", "ctor_n", "ctor_n_val", "ctor_range", "dump"] + ALIAS_CANDS,
     "stk": ["push", "push", "push_rv", "emplace_back", "pop", "pop", "dump", "push_top", "emplace_top"],
     "ipv": ["try_push", "try_push", "try_push_rv", "try_emplace", "unchecked_push", "unchecked_push_rv",
-            "unchecked_emplace", "pop", "pop", "clear"],
+            "unchecked_emplace", "pop", "pop", "clear", "try_push_alias", "try_emplace_alias", "unchecked_push_alias",
+            "unchecked_emplace_alias"],
 }
 
 
@@ -499,7 +528,8 @@ def rand_history(rnd, ty, cap, kind, length, big, interleave=False):
                      "move_assign", "swap", "swap_free", "cmp", "push_top", "emplace_top"]
         else:
             cands = ["try_push", "try_push", "try_push_rv", "try_emplace", "unchecked_push", "unchecked_push_rv",
-                     "unchecked_emplace", "pop", "clear", "copy_ctor", "move_ctor"]
+                     "unchecked_emplace", "pop", "clear", "copy_ctor", "move_ctor", "try_push_alias", "try_emplace_alias",
+                     "unchecked_push_alias", "unchecked_emplace_alias"]
         if interleave:
             cands = UNARY_CANDS[ty]
         op = rnd.choice(cands)
@@ -557,6 +587,19 @@ def rand_history(rnd, ty, cap, kind, length, big, interleave=False):
             x = val()
             emit("%s %s x=%d" % (op, o, x), op)
             d.append(x)
+        elif op in ("try_push_alias", "try_emplace_alias"):
+            if n == 0:
+                continue
+            i = rnd.randrange(n)
+            emit("%s %s i=%d" % (op, o, i), op + ("/full" if room <= 0 else ""))
+            if room > 0:
+                d.append(d[i])
+        elif op in ("unchecked_push_alias", "unchecked_emplace_alias"):
+            if n == 0 or room <= 0:
+                continue
+            i = rnd.randrange(n)
+            emit("%s %s i=%d" % (op, o, i), op)
+            d.append(d[i])
         elif op == "pop":
             if n == 0:
                 continue
@@ -803,6 +846,20 @@ LEVEL_TEXT = ("Proved in Lean 4 (no size bound, all capacities < 2^64, induction
               "size <= capacity and the capacity itself, and produces exactly the contents, iterator offset, "
               "count, pointer and the six comparison results that the list semantics of std::vector prescribe; "
               "try_push_back on a full inplace_vector returns null and changes nothing. "
+              "Aliasing arguments (insert_alias_eq, insertFill_alias_eq, push_alias_eq, resize_alias_eq, alias_spec, "
+              "alias_members_generalise): v.insert(pos, v[i]), v.insert(pos, n, v[i]), v.emplace(pos, v[i]), v.push_back(v[i]), "
+              "v.emplace_back(v[i]), v.resize(n, v[i]), stack push(top()) / emplace(top()) and inplace_vector "
+              "try_push_back(c[i]) / unchecked_push_back(c[i]) / the emplace forms (ipv_push_alias_eq) are operations of the model "
+              "language and of the history theorem; the model reads the argument through the reference in the buffer state "
+              "in which the code reads it, and the theorems say the result is that of the same call with a copy of the "
+              "element taken before the call; assign(n, v[i]) is excluded by the standard and the model shows why "
+              "(assign_alias_reads_destroyed). "
+              "Relational operators (relOps_refines, relOps_refines_strict_weak, kinds_strict_weak, relOps_refines_kinds): for "
+              "an element type with any asymmetric operator< (every strict weak order) and any operator==, nothing assumed "
+              "between them, == / != as derived from equal (through == alone) and < <= > >= as derived from "
+              "lexicographical_compare (through < alone, a <= b := !(b < a)) equal operator== and the operator<=> of "
+              "[container.opt.reqmts] with synth-three-way; that a <= b is also a < b || a == b holds only for a total order "
+              "consistent with == (relOps_total_order, relOps_refines_nat). "
               "Observers (observers_refine, observers_refine_ipv_stk, observers_zero_capacity): size/empty/full/capacity/max_size, "
               "the begin..end and rbegin..rend walks, data()[i], operator[] / front / back / top through detail::index and its "
               "contract check are model functions of their own and equal length / = [] / length = capacity / the list / its "
@@ -835,8 +892,10 @@ LEVEL_TEXT = ("Proved in Lean 4 (no size bound, all capacities < 2^64, induction
               "loop (insert = append then the swap-cycle rotate; erase = move down, destroy, shrink; erase_if = remove_if + "
               "erase) and is compared with the implementation on every run under ASan/UBSan: exhaustively for all content "
               "states over three values at capacity 0..3 with every member, position, count and overload and every pair of "
-              "states for copy/move/swap/compare, for int, a non-trivial class (both storage implementations) and a handle "
-              "class (static_vector), plus random 40-step histories and interleaved copy/source histories at capacities up to 7, "
+              "states for copy/move/swap/compare, for int, a non-trivial class (both storage implementations), a handle "
+              "class (static_vector) and a key/payload pair whose == is finer than its <-equivalence (static_vector, stack: the "
+              "relational operators on every ordered pair of states), every reference-taking member with every element of the "
+              "vector itself as argument, plus random 40-step histories and interleaved copy/source histories at capacities up to 7, "
               "and deterministic walks plus random 10-step histories at the "
               "254/255/256 size-type boundary; the spec is validated against libstdc++ on the same histories.")
 LEVEL_NOTE = ("Trusted: Lean kernel + propext/Classical.choice/Quot.sound; fidelity of the hand model outside the explored "
